@@ -1,0 +1,82 @@
+//! Verification-only exports (compiled only with `--cfg rip_verif`).
+//!
+//! Thin wrappers around crate-private entry points so an external harness can drive the real
+//! router, the context compiler and the authority recovery loop. No behaviour lives here.
+
+use std::path::{Path, PathBuf};
+
+use rip_log::EventLog;
+use serde_json::Value;
+
+pub use crate::provider_openresponses::OpenResponsesConfig;
+pub use rip_provider_openresponses::ToolChoiceParam;
+
+use crate::continuities::{ContinuityRunLink, ContinuityStore, ProviderCursorUpdatedPayload};
+use crate::AuthorityLockGuard;
+
+pub fn build_router(
+    data_dir: PathBuf,
+    workspace_root: PathBuf,
+    openresponses: Option<OpenResponsesConfig>,
+    allow_pty_tasks: bool,
+) -> axum::Router {
+    crate::server::build_app_with_workspace_root_and_provider_and_task_policy(
+        data_dir,
+        workspace_root,
+        openresponses,
+        allow_pty_tasks,
+    )
+}
+
+#[cfg(not(test))]
+pub async fn acquire_authority_lock_with_recovery(
+    data_dir: &Path,
+    workspace_root: &Path,
+) -> Result<AuthorityLockGuard, String> {
+    crate::server::verif_acquire_authority_lock_with_recovery(data_dir, workspace_root).await
+}
+
+pub fn compile_context_for_run(
+    store: &ContinuityStore,
+    event_log: &EventLog,
+    snapshot_dir: &Path,
+    link: &ContinuityRunLink,
+    run_session_id: &str,
+    record: bool,
+) -> Result<Value, String> {
+    crate::session::verif_compile_and_record(
+        store,
+        event_log,
+        snapshot_dir,
+        link,
+        run_session_id,
+        record,
+    )
+}
+
+#[allow(clippy::too_many_arguments)]
+pub fn append_provider_cursor_updated(
+    store: &ContinuityStore,
+    continuity_id: &str,
+    provider: String,
+    endpoint: Option<String>,
+    model: Option<String>,
+    cursor: Option<Value>,
+    action: String,
+    run_session_id: Option<String>,
+) -> Result<String, String> {
+    store.append_provider_cursor_updated(
+        continuity_id,
+        ProviderCursorUpdatedPayload {
+            provider,
+            endpoint,
+            model,
+            cursor,
+            action,
+            reason: Some("verif".to_string()),
+            run_session_id,
+            actor_id: "verif".to_string(),
+            origin: "verif".to_string(),
+        },
+    )
+}
